@@ -2,6 +2,7 @@ package main
 
 import (
 	"fmt"
+	"math"
 	"reflect"
 	"strings"
 	"time"
@@ -78,7 +79,7 @@ func writeValue(b *strings.Builder, v reflect.Value) {
 			case int64:
 				fmt.Fprintf(b, "(int %d)", x)
 			case float64:
-				b.WriteString("(num " + encStr((&influxql.NumberLiteral{Val: x}).String()) + ")")
+				b.WriteString("(num " + numText(x) + ")")
 			default:
 				fmt.Fprintf(b, "(unknown %T)", x)
 			}
@@ -127,6 +128,25 @@ func writeValue(b *strings.Builder, v reflect.Value) {
 	}
 }
 
+// sexpStrict makes the dump carry the IEEE bit pattern of every float next to its printed form.
+// The property oracles that compare two implementation ASTs switch it on (a printing defect must
+// not be able to hide a value difference); the model comparison uses the plain form.
+var sexpStrict bool
+
+func strictly(fn func() string) string {
+	sexpStrict = true
+	defer func() { sexpStrict = false }()
+	return fn()
+}
+
+func numText(v float64) string {
+	t := encStr((&influxql.NumberLiteral{Val: v}).String())
+	if sexpStrict {
+		t += fmt.Sprintf("#%x", math.Float64bits(v))
+	}
+	return t
+}
+
 func sexpExpr(e influxql.Expr) string {
 	var b strings.Builder
 	writeExpr(&b, e)
@@ -173,7 +193,7 @@ func writeExpr(b *strings.Builder, e influxql.Expr) {
 	case *influxql.StringLiteral:
 		b.WriteString("(str " + encStr(e.Val) + ")")
 	case *influxql.NumberLiteral:
-		b.WriteString("(num " + encStr(e.String()) + ")")
+		b.WriteString("(num " + numText(e.Val) + ")")
 	case *influxql.IntegerLiteral:
 		fmt.Fprintf(b, "(int %d)", e.Val)
 	case *influxql.UnsignedLiteral:
